@@ -7,6 +7,7 @@
 pub mod alloc;
 pub mod choices;
 pub mod compensate;
+pub mod cubic;
 pub mod curves;
 pub mod drive;
 pub mod drive_ref;
